@@ -305,6 +305,10 @@ void jwks_error_clear(jwk_set_t *jwk_set)
 
 static int jwks_item_add(jwk_set_t *jwk_set, jwk_item_t *item)
 {
+	/* Allocation failed: the error is already recorded on the set */
+	if (item == NULL)
+		return 1; // LCOV_EXCL_LINE
+
 	list_add_tail(&item->node, &jwk_set->head);
 
 	return 0;
